@@ -13,6 +13,7 @@ class _Obj:
     def __call__(s, f): return f
     def __hash__(s): return 1
     def __eq__(s, o): return True
+    __iter__ = None          # not iterable (a __getitem__ that accepts every index would iterate for ever)
 ''' + "".join(f"    def __{n}__(s, o): return _OBJ(('{n}', s.k))\n    def __r{n}__(s, o): return _OBJ(('r{n}', s.k))\n"
               for n in ['add', 'sub', 'mul', 'truediv', 'floordiv', 'mod', 'pow', 'lshift', 'rshift', 'and', 'or', 'xor', 'matmul']) + '''
 class _IObj(_Obj):
@@ -153,6 +154,16 @@ def run(code, mode, inplace):
         log.append(("names", sorted((k, getattr(v, "k", None) if isinstance(v, g["_Obj"]) else type(v).__name__)
                                     for k, v in ns.items() if re.fullmatch(r"n\d+|f\d+", k))))
     g["__dump"] = dump
+    steps = [0]
+
+    def tracer(frame, event, arg):
+        steps[0] += 1
+        if steps[0] > 200000:
+            raise TimeoutError("step limit")
+        return tracer
+    import sys as _sys
+    old = _sys.gettrace()
+    _sys.settrace(tracer)
     try:
         if mode == "exec":
             exec(compile(code, "<s>", "exec"), g)
@@ -160,4 +171,6 @@ def run(code, mode, inplace):
             eval(compile(code, "<o>", "eval"), g)
     except BaseException as e:
         return log, type(e).__name__ + ": " + str(e)[:80]
+    finally:
+        _sys.settrace(old)
     return log, None
